@@ -1,4 +1,5 @@
 import UgoVerif.Proofs.EncSafe
+import UgoVerif.Proofs.EncAlloc
 /-
   C18 — decoding malformed bytecode returns an error, never a panic, and does not
   allocate out of proportion to the input.
@@ -94,16 +95,18 @@ theorem decodeObject_alloc (C : Ctx) (a b : Nat) (ha : 24 ≤ a) (hb : 268 ≤ b
     ∀ n ∈ (decodeObjectF C fuel bs).allocs, n ≤ a * bs.length + b :=
   ((decSpec C _ bs.length (dominates_lin a b _ ha hb) (gobOK_lin hG a b _ hA) fuel).1 bs (Nat.le_refl _)).2
 
-/-- Full-strength allocation statement: the *sum* of all allocations is linear in the input.
-    Not proved, and expected false for the implementation as it stands: `DecodeObject`
-    copies the payload of every size-prefixed object into a fresh buffer before decoding
-    it, so a container nested d levels deep is copied d times (total ≈ |bs|·d/2, quadratic
-    for d ~ |bs|/3).  `decode_alloc` is the proved part (`_partial`): no single allocation
-    exceeds a·|bs|+b.  See known finding C18:alloc-nesting. -/
+/-- Full-strength allocation statement, with the constants the `dec` stream's oracle uses:
+    the *sum* of all allocations of one decode is at most 64·|bs| + 64 KiB.
+    FALSE for the implementation as it stands (`C18_alloc_full_false`): `DecodeObject` copies
+    the payload of every size-prefixed object into a fresh buffer before decoding it, so a
+    container nested d levels deep is copied d times (total ≈ |bs|·d/2).  `decode_alloc` is
+    the proved part (`decode_alloc_partial`): no *single* allocation exceeds a·|bs|+b.
+    Known finding C18:alloc-nesting (open: the repair — decode in place, or a depth limit —
+    is a design decision). -/
 def C18_alloc_full : Prop :=
-  ∀ (C : Ctx) (conv : BC → Res BC) (mods : Mods), GobRest C → (∃ a b, GobAlloc C a b) →
+  ∀ (C : Ctx) (conv : BC → Res BC) (mods : Mods), GobRest C → GobAlloc C 64 65536 →
     (∀ bc, (conv bc).isPanic = false) →
-    ∃ a b, ∀ fuel bs, (decodeBytecodeF C conv mods fuel bs).total ≤ a * bs.length + b
+    ∀ fuel bs, (decodeBytecodeF C conv mods fuel bs).total ≤ 64 * bs.length + 65536
 
 /-- the proved part of `C18_alloc_full` -/
 theorem decode_alloc_partial (C : Ctx) (conv : BC → Res BC) (mods : Mods) (a b : Nat) (ha : 24 ≤ a) (hb : 268 ≤ b)
@@ -117,7 +120,24 @@ theorem decode_alloc_partial (C : Ctx) (conv : BC → Res BC) (mods : Mods) (a b
 /-- a context satisfying the gob assumptions (gob rejects everything) -/
 def ctx0 : Ctx := { gobDec := fun _ => none, gobAlloc := fun _ => 0, gobEnc := fun _ _ => [], isBuiltinFn := fun _ => false }
 
-example : GobRest ctx0 := by intro r o r' h; cases h
+theorem ctx0_gobRest : GobRest ctx0 := by intro r o r' h; cases h
+theorem ctx0_gobAlloc : GobAlloc ctx0 64 65536 := by intro r; exact Nat.zero_le _
+
+/-- Refutation of `C18_alloc_full` by a concrete witness: the valid encoding of a bytecode
+    whose single constant is an array nested 2001 levels deep (≤ 48 033 bytes) makes the
+    decoder model allocate ≥ 10 009 002 bytes in total — more than 64·48 033 + 65 536 =
+    3 139 648.  (The `dec` stream measures the same on the implementation: 12.6 KB of
+    4000-deep arrays allocate 39 MB.) -/
+theorem C18_alloc_full_false : ¬ C18_alloc_full := by
+  intro h
+  have hle := h ctx0 (fun bc => .ok bc) (fun _ => none) ctx0_gobRest ctx0_gobAlloc (fun _ => rfl) 6006
+    (encodeBytecode ctx0 (nestBC 2000))
+  have hlow := nestBC_total ctx0 (fun bc => .ok bc) (fun _ => none) 2000 6006 (by decide) (by decide)
+  have hlen := nestBC_len ctx0 2000 (by decide)
+  have hsum := nestSum_closed (2000 + 1)
+  omega
+
+example : GobRest ctx0 := ctx0_gobRest
 example : GobAlloc ctx0 24 268 := by intro r; exact Nat.zero_le _
 example : ∀ bc : BC, ((fun bc => .ok bc : BC → Res BC) bc).isPanic = false := fun _ => rfl
 /-- a gob that consumes one byte also satisfies `GobRest` -/
